@@ -41,7 +41,7 @@ def jobs(tier):
     from .c01 import PRELUDE_SUBSET
     for e in CAT.build(4, "quick"):
         if e.name in PRELUDE_SUBSET and selected(e):
-            for pre in (["false_region"], ["aborted_region"]):
+            for pre in (["false_region"], ["aborted_region"], ["self_first"]):
                 js.append(dict(name="%s/n4/after-%s" % (e.name, pre[0]), entry=e.name, backend="snarkjs",
                                cfg=dict(n=4, r=2, guard=None, bound=(1 << 64), prelude=pre), tier=tier, weight=2))
     return js
